@@ -442,6 +442,47 @@ def classify(site: dict, gmod, answer: str, rep: dict) -> tuple[str | None, list
     return None, tried
 
 
+def suppressed_by_stale_wildcard_source(collection, gmod, files: dict, f: dict, r: dict, member) -> bool:  # noqa: ANN001
+    """Third observed form of C04-early-resolution-stale-target, one hop away from the scope member: the module binds the
+    bare name with an import statement and, LATER in line order, wildcard-imports a module S that delivers the same name
+    through an alias which is stale in form (a) (its cached chain passes a member that has been replaced since).  When the
+    wildcard is expanded, Griffe compares the stale cached final target of S's alias with the member already present,
+    finds the very module that member points to ("an alias named after the module it targets") and keeps the earlier
+    binding, although CPython re-binds the name to what S really delivers.  Every clause is checked here: a later
+    wildcard import statement in the module's own source, the stale hop under S's alias, and that following S's alias by
+    path ends at the object CPython binds."""
+    import ast
+
+    from vf.checks.c05 import first_replaced_hop, relookup_by_path
+
+    rel = f["module"].replace(".", "/")
+    is_pkg = rel + "/__init__.py" in files
+    src = files.get(rel + "/__init__.py", files.get(rel + ".py"))
+    if src is None or member.alias_lineno is None:
+        return False
+    root = f["expr"]
+    for node in ast.parse(src).body:
+        if not (isinstance(node, ast.ImportFrom) and any(a.name == "*" for a in node.names) and node.lineno > member.alias_lineno):
+            continue
+        base = f["module"].split(".")
+        if node.level:
+            base = base[: len(base) - node.level + (1 if is_pkg else 0)]
+            source = ".".join([*base, *( [node.module] if node.module else [])])
+        else:
+            source = node.module or ""
+        try:
+            cand = collection.get_member(source).members.get(root)
+        except Exception:  # noqa: BLE001
+            continue
+        if cand is None or not cand.is_alias or not cand.resolved:
+            continue
+        hop = first_replaced_hop(collection, cand)
+        fresh = relookup_by_path(collection, cand)
+        if hop is not None and hop.is_alias and fresh is not None and r["cpy"].get("id") == fresh.path:
+            return True
+    return False
+
+
 def stale_early_resolution(collection, loaded_gmod, files: dict, f: dict, r: dict) -> bool:  # noqa: ANN001
     """C04-early-resolution-stale-target (same root cause as C05-early-resolution-stale-target): the scope member the
     bare name resolves through is an alias that was resolved during loading and Griffe answers its cached target path,
@@ -461,6 +502,9 @@ def stale_early_resolution(collection, loaded_gmod, files: dict, f: dict, r: dic
     if depth is None:
         return False
     member = scopes[depth].members[root]
+    if depth == 0 and member.is_alias and f["griffe"] == member.target_path and suppressed_by_stale_wildcard_source(
+            collection, loaded_gmod, files, f, r, member):
+        return True
     if not member.is_alias or not member.resolved or f["griffe"] != member.target_path:
         return False
     hop = first_replaced_hop(collection, member)
